@@ -439,7 +439,7 @@ def main(tier, seed):
     prepare(wd, True)
     res = run_campaign(wd, fuzz_s, fuzz_w, seed + 7, "/repo/tests/a1.out", max_len=96)
     ev.extra["fuzz"] = res["stats"]
-    ev.evaluations += res["stats"].get("execs", 0)
+    ev.extra["fuzz_execs"] = ev.extra.get("fuzz_execs", 0) + res["stats"].get("execs", 0)     # (time-boxed: reported apart from the deterministic count)
     for art in res["crashes"][:6]:
         fails, rep = reproduce(art, "/repo/tests/a1.out")
         if fails == 0:
